@@ -51,6 +51,16 @@ type fakeCH struct {
 	issues  []blockIssue
 	markers map[string]int // marker -> times seen in a string column of an accepted block
 	doLog   map[string]int // INSERT statement -> blocks received since the last takeDoLog
+	mode    string         // database outcome (see dbOutcomes)
+	seq     int            // blocks received since setMode
+}
+
+var errInjected = fmt.Errorf("fake ClickHouse: injected INSERT failure")
+
+func (f *fakeCH) setMode(m string) {
+	f.mu.Lock()
+	f.mode, f.seq = m, 0
+	f.mu.Unlock()
 }
 
 var errNotRectangular = fmt.Errorf("fake ClickHouse: block rejected, columns have different numbers of rows")
@@ -60,6 +70,12 @@ var markerRe = regexp.MustCompile(`verifmk[0-9]+x`)
 func (f *fakeCH) Ping(ctx context.Context) error { return nil }
 
 func (f *fakeCH) Do(ctx context.Context, q ch.Query) error {
+	f.mu.Lock()
+	slow := f.mode == "slow"
+	f.mu.Unlock()
+	if slow {
+		time.Sleep(30 * time.Millisecond)
+	}
 	f.mu.Lock()
 	defer f.mu.Unlock()
 	atomic.AddInt64(&f.dos, 1)
@@ -86,6 +102,23 @@ func (f *fakeCH) Do(ctx context.Context, q ch.Query) error {
 		f.issues = append(f.issues, blockIssue{q.Body, rows})
 		if !rect {
 			return errNotRectangular // as the server would: the whole block, with every client's rows in it, is refused
+		}
+	}
+	f.seq++
+	switch f.mode {
+	case "all_fail":
+		return errInjected
+	case "first1_fail":
+		if f.seq <= 1 {
+			return errInjected
+		}
+	case "first3_fail":
+		if f.seq <= 3 {
+			return errInjected
+		}
+	case "fail_after_first":
+		if f.seq > 1 {
+			return errInjected
 		}
 	}
 	return nil
@@ -419,12 +452,15 @@ func (w *workerEnv) serve(id int, method, path string, headers [][2]string, body
 
 // settle waits until no goroutine created since base (with repository frames) is left, polling with scheduler
 // yields first and short sleeps later; returns what is left after the bound, and the last census taken.
-var settleRounds = 400 // 50 scheduler yields, then sleeps of 2 ms (solo re-runs: 10x as many)
+// how long settle polls for the request's goroutines to go away: 50 scheduler yields, then sleeps growing from 2 ms
+// to 50 ms, until the bound (solo re-runs: 10x; database-outcome inputs: 10 s, solo 20 s)
+var settleBound = 800 * time.Millisecond
 
 func settle(base map[int]gor) ([]string, map[int]gor) {
 	var left []string
 	var cur map[int]gor
-	for i := 0; i < settleRounds; i++ {
+	start := time.Now()
+	for i := 0; i < 50 || time.Since(start) < settleBound; i++ {
 		left = left[:0]
 		cur = census()
 		for id, g := range cur {
@@ -435,10 +471,13 @@ func settle(base map[int]gor) ([]string, map[int]gor) {
 		if len(left) == 0 {
 			return nil, cur
 		}
-		if i < 50 {
+		switch {
+		case i < 50:
 			runtime.Gosched()
-		} else {
+		case i < 400:
 			time.Sleep(2 * time.Millisecond)
+		default:
+			time.Sleep(50 * time.Millisecond)
 		}
 	}
 	sort.Strings(left)
@@ -455,9 +494,27 @@ func (w *workerEnv) run(in *Input, forceFollow bool) Result {
 	r0 := atomic.LoadInt64(&svcRequests)
 	w.ing.fake.takeIssues()
 	w.ing.fake.takeDoLog()
-	so := w.serve(in.ID, in.Method, in.Path, in.Headers, in.Body, base)
+	body := in.Body
+	if in.Big != nil {
+		body = sizedBody(in.Family, in.Big.N, in.Big.LineLen, false)
+	}
+	w.ing.fake.setMode(in.DB)
+	so := w.serve(in.ID, in.Method, in.Path, in.Headers, body, base)
+	w.ing.fake.setMode("")
 	res.Status, res.Panic, res.PanicSite = so.status, so.panicked, so.panicSite
-	res.Leaked, w.base = settle(base)
+	if in.Gen == "dbx" {
+		// failing / slow database, many portions: retries may still be winding down; poll for quiescence of the
+		// request's goroutines up to a generous bound (10 s, 20 s when re-run alone) before calling anything left behind
+		saved := settleBound
+		settleBound = 10 * time.Second
+		if saved > time.Second { // solo re-run
+			settleBound = 20 * time.Second
+		}
+		res.Leaked, w.base = settle(base)
+		settleBound = saved
+	} else {
+		res.Leaked, w.base = settle(base)
+	}
 	res.Requests = atomic.LoadInt64(&svcRequests) - r0
 	res.Issues = w.ing.fake.takeIssues()
 	for _, n := range w.ing.fake.takeDoLog() {
@@ -728,7 +785,7 @@ func workerMain(file string, offset int64, count int, deadline time.Duration, st
 			os.Exit(4)
 		}
 		if count == 1 {
-			settleRounds = 4000
+			settleBound = 8 * time.Second
 		}
 		fmt.Fprintf(out, "B %d\n", in.ID)
 		out.Flush()
